@@ -33,8 +33,8 @@ def any_session(c, version, with_decryptor):
                  server_cipher_change=c.bool("server_ccs"), client_cipher_change=c.bool("client_ccs"), decryptor=dec,
                  application_traffic=[], keylog=[], server_ip=c.bytes("sip", length=4), client_ip=c.bytes("cip", length=4),
                  server_port=443, client_port=50000, ipv6=False, client_random=c.bytes("client_random", length=32))
-    if version is not None:
-        attrs["tls_version"] = c.enum("tlexport.tlsversion.TlsVersion", version)
+    # 'no ServerHello seen yet' is tls_version None (Session.__init__ sets it)
+    attrs["tls_version"] = c.enum("tlexport.tlsversion.TlsVersion", version) if version is not None else None
     return c.obj(SE, **attrs), dec
 
 
